@@ -64,6 +64,10 @@ def setup():
     REC.append(('z0', a, b, c, d, e, f_))
 
   @gin.configurable(module='c07')
+  def zf(a=float('inf'), b=float('nan'), c=-float('inf'), d=1.5, e=(float('inf'),), g_=1e308):
+    REC.append(('zf', repr((a, b, c, d, e, g_))))
+
+  @gin.configurable(module='c07')
   def never(z=0):
     REC.append(('never', z))
 
@@ -78,8 +82,8 @@ def setup():
   K.m.__qualname__ = 'K.m'
   gin.register(K.m)
   gin.register(K)
-  global F, G, CONSUMER, AL, DL, KCLS, Z0
-  F, G, CONSUMER, AL, DL, KCLS, Z0 = f, g, consumer, al, dl, K, z0
+  global F, G, CONSUMER, AL, DL, KCLS, Z0, ZF
+  F, G, CONSUMER, AL, DL, KCLS, Z0, ZF = f, g, consumer, al, dl, K, z0, zf
 
 
 # ------------------------------------------------------------------------------------- model data
@@ -92,6 +96,7 @@ SIG = {   # selector -> (positional names, representable+allowed defaults)
     'c07.K': (['self', 'w'], {'w': 'kw'}),
     'c07.K.m': (['self', 'v', 'u'], {'v': 'mv', 'u': None}),
     'c07.z0': (['a', 'b', 'c', 'd', 'e', 'f_'], {'a': 0, 'b': '', 'c': False, 'd': None, 'e': (), 'f_': 0.0}),
+    'c07.zf': (['a', 'b', 'c', 'd', 'e', 'g_'], {'d': 1.5, 'g_': 1e308}),
     'gin.macro': (['value'], {}),
     'gin.constant': ([], {}),
 }
@@ -165,6 +170,8 @@ EVENTS = {
     'f(a=REQ)': ('c07.f', [], [], {'a': 'REQ'}),
     'f(REQ, b=REQ)': ('c07.f', [], ['REQ'], {'b': 'REQ'}),
     "s:f('pos', REQ)": ('c07.f', ['s'], ['pos', 'REQ'], {}),
+    'zf()': ('c07.zf', [], [], {}),
+    'zf(d=2)': ('c07.zf', [], [], {'d': 2}),
     'z0()': ('c07.z0', [], [], {}),
     'z0(0, b=None)': ('c07.z0', [], [0], {'b': None}),
     's:z0(c=True)': ('c07.z0', ['s'], [], {'c': True}),
@@ -172,7 +179,7 @@ EVENTS = {
 EVENTS_Q = ['f()', "f('pos')", 'f(b=2)', 's:f()', 's/t:f()', 'consumer()', "consumer('x')", 'al()', 'dl()',
             'K().m()', 'u/K().m()', "K().m(v='cv')", "s:f(a='ka')", 'al(y=5)', 'g()', 'bind f.b=1', 'bind f.b=True',
             'bind g.t=%mm', 'bind g.t=%mm2', 'bind consumer.p=@s/g()', 'bind consumer.p=@u/g()', 'z0()', 'z0(0, b=None)',
-            'f(a=REQ)', 'f(REQ, b=REQ)']
+            'f(a=REQ)', 'f(REQ, b=REQ)', 'zf()']
 
 
 def bound(tier):
@@ -196,7 +203,7 @@ def do_event(ev):
         inst = gin.get_configurable(KCLS)()
       inst.m(*args, **kwargs)
     else:
-      fn = {'c07.f': F, 'c07.g': G, 'c07.consumer': CONSUMER, 'c07.al': AL, 'c07.dl': DL, 'c07.z0': Z0}[target]
+      fn = {'c07.f': F, 'c07.g': G, 'c07.consumer': CONSUMER, 'c07.al': AL, 'c07.dl': DL, 'c07.z0': Z0, 'c07.zf': ZF}[target]
       req = lambda v: gin.REQUIRED if v == 'REQ' else v  # noqa: E731
       with gin.config_scope(list(scope) if scope else None):
         fn(*[req(a) for a in args], **{k: req(v) for k, v in kwargs.items()})
@@ -207,6 +214,8 @@ def do_event(ev):
 
 def representable(v):
   if isinstance(v, NonRep):
+    return False
+  if isinstance(v, float) and (v != v or v in (float('inf'), -float('inf'))):
     return False
   if isinstance(v, (list, tuple)):
     return all(representable(x) for x in v)
